@@ -12,6 +12,9 @@ CHECK = {
     "assumptions": ["stub upstream answers misses with TC=1 so that asking never changes cache state"],
     "bounds": {"quick": "full pair alphabet; ECS audiences only for A/IN on shared entries", "thorough": "full product"},
     "units": {
+        # the DoH JSON API: the presentation text a client types reaches the pipeline in the wire decoder's spelling
+        "jsonentry": {"pkg": "server/doh", "run": "TestVerifC03JSONEntry", "harness": {"server/doh": ["zz_verif_c03_json_test.go"]},
+                      "stub_tests": ["server/doh"], "shards": 2, "budget_s": {"quick": 20, "thorough": 40}},
         "pairs": {"pkg": "middleware/cache", "run": "TestVerifC03Pairs", "harness": _H, "stub_tests": ["middleware/cache"]},
         "keys": {"pkg": "internal/cache", "run": "TestVerifC03Keys", "harness": {"internal/cache": ["zz_verif_c03_*.go"]}, "shards": 7},
         # audiences across client HISTORIES (sources shorter / longer than the floor, clamped scopes): the C19 scoped-history
